@@ -39,6 +39,34 @@ Definition run_1606 (h : list Z) (sgs : io) : io :=
   | Some r => [[1]; map s_start r]
   end.
 
+(* a matrix of frames: groups [fsize; n] followed by n signal groups, repeated *)
+Fixpoint frames_of (fuel : nat) (gs : io) : list (Z * list signal) :=
+  match fuel with
+  | O => []
+  | S fu =>
+      match gs with
+      | [] => []
+      | h :: r =>
+          let n := Z.to_nat (nthz h 1) in
+          (nthz h 0, map sig16 (firstn n r)) :: frames_of fu (skipn n r)
+      end
+  end.
+
+(* 1607: [strategy] | frame, signals, frame, signals ... -> the sizes of all frames after CanMatrix.recalc_dlc
+   (strategy 0 "max", 1 "force", 2 another string) *)
+Definition run_1607 (h : list Z) (gs : io) : io := [recalc_dlc (nthz h 0) (frames_of (length gs) gs)].
+
+(* 1608: flat pairs size is_fd ... -> is_fd of every frame after CanMatrix.set_fd_type *)
+Fixpoint fd_pairs (fuel : nat) (g : list Z) : list (Z * bool) :=
+  match fuel with
+  | O => []
+  | S fu => match g with
+            | sz :: fd :: r => (sz, zb fd) :: fd_pairs fu r
+            | _ => []
+            end
+  end.
+Definition run_1608 (g : list Z) : io := [map bz (set_fd_types (fd_pairs (length g) g))].
+
 Definition run_c16 (cmd : Z) (a : io) : io :=
   match cmd, a with
   | 1601, h :: sgs => run_1601 h sgs
@@ -47,5 +75,7 @@ Definition run_c16 (cmd : Z) (a : io) : io :=
   | 1604, [h] => run_1604 h
   | 1605, [h] => run_1605 h
   | 1606, h :: sgs => run_1606 h sgs
+  | 1607, h :: gs => run_1607 h gs
+  | 1608, [g] => run_1608 g
   | _, _ => [[-999]]
   end.
